@@ -1187,3 +1187,15 @@ func withinSize(c ast.Constant, budget *int) bool {
 	}
 	return true
 }
+
+// BuiltinHolds decides a ground built-in atom (all arguments constants) by the reference semantics.
+func BuiltinHolds(a ast.Atom) (bool, error) {
+	out, ready, err := builtinAtom(a, env{})
+	if err != nil {
+		return false, err
+	}
+	if !ready {
+		return false, ErrUnsafe
+	}
+	return len(out) > 0, nil
+}
